@@ -31,9 +31,9 @@ def ret_term(u, fn):
     rets = [r for r in F.walk(fn.get("body"), into_lambdas=False) if r.get("k") == "return"]
     if len(rets) == 1 and rets[0].get("e") is not None:
         return re.sub(r"this\.", "", T.show(T.snorm(u, fn, rets[0]["e"])))
-    stm = (fn.get("body") or {}).get("ch", [])
+    stm = [x for x in (fn.get("body") or {}).get("ch", []) if x.get("k") not in ("decl", "null")]
     if len(stm) == 1 and stm[0].get("k") != "return":
-        return re.sub(r"this\.", "", T.show(T.norm(u, stm[0])))
+        return re.sub(r"this\.", "", T.show(T.snorm(u, fn, stm[0])))
     return None
 
 
